@@ -822,4 +822,74 @@ theorem msgCalls_emptyMsg (ord : MapOrder) : msgCalls ord emptyMsg = [] := by
 
 end back
 
+/-! ## 6. from the exact-weight message of a store unit to the float message of the generic `MergeWithProto` -/
+
+section consumer
+open DDS.Lift
+
+/-- the message with its exact weights as floats (what the sketch level hands to `MergeWithProto`) -/
+def toF64 (m : GoPb.Store Rat) : GoPb.Store F64 :=
+  { BinCounts := m.BinCounts.map (fun p => (p.1, F64.fin p.2)),
+    ContiguousBinCounts := m.ContiguousBinCounts.map F64.fin,
+    ContiguousBinIndexOffset := m.ContiguousBinIndexOffset }
+
+theorem mrange_mapV {V W : Type} (f : V → W) (ord : MapOrder) (m : GoMap V) :
+    mrange ord (m.map (fun p => (p.1, f p.2))) = (mrange ord m).map (fun p => (p.1, f p.2)) := by
+  unfold mrange
+  rw [List.map_map, List.map_filterMap]
+  have : (Prod.fst ∘ fun p : Int × V => (p.1, f p.2)) = Prod.fst := rfl
+  rw [this]
+  apply List.filterMap_congr
+  intro k _
+  rw [List.find?_map]
+  have e : ((fun p : Int × W => p.1 == k) ∘ fun p : Int × V => (p.1, f p.2)) = (fun p => p.1 == k) := rfl
+  rw [e]
+  cases m.find? (fun p : Int × V => p.1 == k) <;> rfl
+
+theorem msgCalls_toF64 (ord : MapOrder) (m : GoPb.Store Rat) :
+    msgCalls ord (toF64 m) = RoundTrip.finBins (msgCalls ord m) := by
+  unfold msgCalls toF64 RoundTrip.finBins
+  simp only [mrange_mapV, List.map_append, List.map_map, List.zipIdx_map]
+  rfl
+
+theorem msgBins_toF64 (ord : MapOrder) (m : GoPb.Store Rat) : msgBins ord (toF64 m) = msgCalls ord m := by
+  unfold msgBins
+  rw [msgCalls_toF64]
+  unfold RoundTrip.finBins
+  rw [List.map_map]
+  exact (List.map_congr_left (fun p _ => rfl)).trans (List.map_id _)
+
+theorem finite_toF64 (m : GoPb.Store Rat) : Finite (toF64 m) := by
+  constructor
+  · intro p hp
+    obtain ⟨q, _, rfl⟩ := List.mem_map.1 hp
+    exact ⟨q.2, rfl⟩
+  · intro c hc
+    obtain ⟨q, _, rfl⟩ := List.mem_map.1 hc
+    exact ⟨q, rfl⟩
+
+/-- merging bins that weigh, index by index, what a canonical content does into the empty content gives it -/
+theorem merge_nil_of_lookup (c : Content) (hc : c.WF) (L : List (Int × Rat)) (hn : ∀ p ∈ L, 0 ≤ p.2)
+    (hl : ∀ j, Content.lookup L j = c.lookup j) : Content.merge [] L = c := by
+  apply Content.ext _ _ (Content.wf_merge_of_nonneg [] L Content.wf_nil hn) hc
+  intro j
+  rw [Content.lookup_merge, Content.lookup_nil, hl j, Rat.zero_add]
+
+/-- **any consumer kind** (generic `MergeWithProto`, the model's stores, every oracle and fuel): a message `m` whose
+    calls weigh, index by index, what the canonical content `c` does (weights `≥ 0`, `int32` indexes unless the weight
+    is 0), merged into a NEW store of kind `k`, gives a good store of kind `k` holding `c` clamped by the rule of `k` -/
+theorem consumer_roundtrip (k : StoreKind) (hk : KindOK k) (c : Content) (hc : c.WF) (ord : MapOrder)
+    (m : GoPb.Store Rat) (hok : BinsOK (msgCalls ord m)) (hl : ∀ j, Content.lookup (msgCalls ord m) j = c.lookup j)
+    (fuel : Nat) :
+    ∃ st', Gen.StoreProto.MergeWithProto fuel ord (Store.new k) (toF64 m) = .ok st' ∧ Good st' ∧ st'.kind = k ∧
+      contentOf st' = (clampOfKind k).apply c := by
+  obtain ⟨g, c0, k0⟩ := good_new k hk
+  have hc0 : contentOf (Store.new k) = (Store.new k).clamp.apply [] := by rw [c0, clamp_apply_nil]
+  obtain ⟨st', a1, a2, a3, a4⟩ := mergeWithProto_good_store fuel ord (Store.new k) g [] Content.wf_nil hc0
+    (toF64 m) (finite_toF64 m) (by rw [msgBins_toF64]; exact hok)
+  refine ⟨st', a1, a2, a3.trans k0, ?_⟩
+  rw [a4, msgBins_toF64, clamp_new, merge_nil_of_lookup c hc _ (fun p hp => (hok p hp).1) hl]
+
+end consumer
+
 end DDS.GenProtoStore
